@@ -181,13 +181,15 @@ class Prop:
     case_vo = "theories/Cases/CaseC11.vo"
     run_fn = "run11"
     shard = 250
-    rule = ("a case is one pair (t0, t1) of plain trees over a shared alphabet of strings, run through Tree.diff with "
-            "ordered x reduce in {F,T}^2 (4 calls per case).  Enumerated: every pair of sibling-unique labelled forests with "
-            "<= N nodes each over 3 labels, one representative per renaming of the labels (quick N=3; thorough N=3 plus all pairs (4 nodes, "
-            "<= 3 nodes) and seeded samples of the (<= 3, 4) and (4, 4) pairs); random: mutated copies (add/remove/move/"
-            "swap/relabel/sort, 0-6 steps) of random trees with up to 14 (thorough 30) nodes over 3-6 labels, unrelated random pairs, "
-            "identical copies; plus an out-of-domain stream (equal-comparing objects under explicit data_ids, where diff may raise "
-            "UniqueConstraintError) on which only model = implementation and 'inputs unchanged' are checked.  distinct = distinct "
+    rule = ("a case is one pair (t0, t1) of trees over a shared alphabet of strings (names with prefix relations), run through "
+            "Tree.diff with ordered x reduce in {F,T}^2 (4 calls per case; result forest, root meta, diff_node_formatter labels, both "
+            "inputs before/after).  Enumerated: every pair of sibling-unique labelled forests with <= 3 nodes each over 3 labels, one "
+            "representative per renaming of the labels (thorough: plus all pairs (4 nodes, <= 3 nodes) and seeded samples of the "
+            "(<= 3, 4) and (4, 4) pairs); random: mutated copies (add/remove/move/swap/relabel/sort, 0-6 steps) of random trees with up "
+            "to 14 (thorough 30) nodes over 3-6 labels, unrelated random pairs, identical copies; pairs of TypedTrees with random kinds; "
+            "plus an out-of-domain stream (equal-comparing objects under explicit data_ids, ids shared by unequal data; diff may raise "
+            "UniqueConstraintError or lose nodes) on which model = implementation and 'inputs unchanged' are checked.  The oracle is "
+            "applied exactly on the pairs inside the theorems' domain (computed independently on both sides).  distinct = distinct "
             "(t0, t1); non-trivial = the result carries at least one mark")
     exhaustive_note = "all pairs of labelled forests <= 3 nodes over 3 labels up to renaming x 4 configurations"
     assumptions = [
@@ -198,17 +200,25 @@ class Prop:
         "Tree.filter is wrapped inside the harness process to snapshot t2 before the reduce step of the same run",
     ]
     manifest = dict(
-        text=("Machine-checked theorems (Coq 8.16, no axioms) about an executable model of nutree/diff.py (find_child, compare, "
-              "copy_children, the set-ordered re-classification with the iteration order as an explicit parameter, reduce through the "
-              "boolean in-place filter): for sibling-unique trees on which == and data_id agree and EVERY iteration order, identical inputs "
-              "give no marks, dropping REMOVED/MOVED_TO gives t1's parent-child relation, dropping ADDED/MOVED_HERE gives t0's child lists "
-              "in order below every node present in both, marks sit exactly on the one-sided children, MOVED_HERE implies a MOVED_TO "
-              "with equal data, order marks are the true old/new index and appear only when ordered, reduce keeps exactly the marked "
-              "nodes and their ancestors; tied to /repo on every run by a correspondence check (all pairs of small forests x 4 "
-              "configurations, mutated random trees) and an independent Python oracle of the projection laws."),
-        note=("Trusted: Coq kernel + vm_compute; hand-written model theories/Forest/Diff.v (tied by the correspondence only); harness. "
-              "'Inputs unchanged' is a fact of the model being a pure function; for the implementation it is observed (both inputs "
-              "before/after every call)."),
+        text=("Machine-checked theorems (Coq 8.16, no axioms) about an executable model of nutree/diff.py (find_child, compare with the "
+              "literal branch structure, copy_children, the set-ordered re-classification with the iteration order as an explicit "
+              "parameter, reduce through the boolean in-place filter, the UniqueConstraintError of the result tree, "
+              "diff_node_formatter): for sibling-unique trees on which == and data_id agree and EVERY iteration order, identical inputs "
+              "give an unmarked copy, dropping REMOVED/MOVED_TO gives t1's parent-child relation (paths of data objects, as a "
+              "permutation), dropping ADDED/MOVED_HERE gives t0's child lists in order below every node present in both, marks sit "
+              "exactly on the one-sided children, order marks are the true old/new index and appear only when ordered (dc_renumbered "
+              "iff a child is shifted), diff does not raise; for ANY two forests MOVED_HERE and MOVED_TO come in pairs with equal "
+              "data_id and reduce keeps exactly the marked nodes and their ancestors (pre-order with depths); complete iteration orders "
+              "leave no REMOVED mark that an added node could explain.  Tied to /repo on every run by a correspondence check (all pairs "
+              "of small forests x 4 configurations, mutated random trees, typed trees, an out-of-domain stream) and an independent "
+              "Python oracle of the projection laws, the marks, the order marks, the move pairs, reduce and 'inputs unchanged'."),
+        note=("Trusted: Coq kernel + vm_compute; hand-written model theories/Forest/Diff.v, DiffFormat.v (tied by the correspondence only); "
+              "harness. 'Inputs unchanged' is a fact of the model being a pure function; for the implementation it is observed (both "
+              "inputs before/after every call). The set iteration order of the implementation is not reproduced but witnessed: the "
+              "harness passes the nodes marked MOVED_HERE as hints, the model processes them first (a permutation of added_nodes, "
+              "proved). Marks inside an added branch (ADDED on its first level only, nothing below) are modelled as they are; the "
+              "theorems speak about the children of nodes present in both trees, as the property does. Repair D60 (typed trees "
+              "crashed) is part of the modelled code."),
         technique="Coq proof about an executable Gallina model + differential correspondence check (vm_compute) + Python oracle",
         design_ref="DESIGN.md section 6 (C11)",
     )
@@ -228,13 +238,13 @@ class Prop:
                 for f1 in upto3:
                     if canonical_pair(f0, f1):
                         yield dict(univ=univ3, t0=to_nodes(f0), t1=to_nodes(f1))
-            for _ in range(3000):
+            for _ in range(1500):
                 f0, f1 = rng.choice(upto3), rng.choice(small[4])
                 yield dict(univ=univ3, t0=to_nodes(f0), t1=to_nodes(f1))
-            for _ in range(3000):
+            for _ in range(1500):
                 f0, f1 = rng.choice(small[4]), rng.choice(small[4])
                 yield dict(univ=univ3, t0=to_nodes(f0), t1=to_nodes(f1))
-        nrand = 250 if tier == "quick" else 2000
+        nrand = 200 if tier == "quick" else 1500
         nmax = 14 if tier == "quick" else 30
         for i in range(nrand):
             k = rng.choice([3, 3, 4, 6])
@@ -249,7 +259,7 @@ class Prop:
                 t1 = rand_nodes(rng, rng.randint(0, nmax), k)
             yield dict(univ=LABELS[:k], t0=t0, t1=t1)
         # typed trees (both inputs TypedTree; kinds play no role in the comparison and are copied to the result)
-        ntyped = 60 if tier == "quick" else 600
+        ntyped = 50 if tier == "quick" else 300
         for i in range(ntyped):
             k = rng.choice([3, 4])
             t0 = rand_nodes(rng, rng.randint(1, 10), k)
@@ -260,7 +270,7 @@ class Prop:
 
             yield dict(univ=LABELS[:k], t0=kinds(t0), t1=kinds(t1), typed=True)
         # out of the theorem's domain: equal-comparing objects under explicit ids
-        nout = 80 if tier == "quick" else 600
+        nout = 60 if tier == "quick" else 300
         for i in range(nout):
             univ = ["e:1", "e:1", "e:2", "s:a", "i:1", "t:1"]
             n = rng.randint(1, 6)
